@@ -112,11 +112,25 @@ def run(tier, seed):
                 ' '.join(named_keys), ' '.join(['(layer-switch l2)'] + named_keys[1:]), ' '.join(['_'] * len(named_keys))),
             'unmapped': '(defcfg process-unmapped-keys yes)\n(defsrc a)\n(deflayer base a)',
         }
+        # keys that are not in defsrc, mapped to themselves by name in a deflayermap, next to an any-key entry (written before or
+        # after them) that blocks or remaps everything else: the keys written out keep their identity
+        self_names = [('e', 18), ('kp5', 76), ('s', 31), ('ret', 28), ('1', 2), ('f1', 59), ('spc', 57), ('lsft', 42)]
+        pairs = ' '.join('%s %s' % (n, n) for n, _ in self_names)
+        only_self = {}
+        for anyk in ('__', '___'):
+            for anyact in ('XX', 'z'):
+                for first in (False, True):
+                    nm = 'lmself%s%s%s' % (len(anyk), anyact, 'F' if first else 'L')
+                    body = ('%s %s %s' % (anyk, anyact, pairs)) if first else ('%s %s %s' % (pairs, anyk, anyact))
+                    cfgs[nm] = '(defcfg process-unmapped-keys yes)\n(defsrc a)\n(deflayermap (base) %s)' % body
+                    only_self[nm] = [c for _, c in self_names]
         cases = []
         chunk = 64
         for cname, cfg in cfgs.items():
             ks = [c for c in known if is_plain(vmap[c])]
-            if tier == 'quick' and cname != 'unmapped':
+            if cname in only_self:
+                ks = only_self[cname]
+            elif tier == 'quick' and cname != 'unmapped':
                 ks = [c for c in ks if c < 128 or (imin - 2 <= c <= imax + 2)]
             for i in range(0, len(ks), chunk):
                 h = []
